@@ -93,6 +93,9 @@ type serverConn struct {
 	// Thus, the number stored in closeRef is used to complete all the requests that were sent before
 	// to gracefully close the connection with a GOAWAY.
 	closeRef uint32
+	// closeRefSet tells a closeRef of 0 that means 'no stream had been opened'
+	// from one that was never set.
+	closeRefSet uint32
 
 	// maxRequestTime is the max time of a request over one single stream
 	maxHeaderList int
@@ -565,10 +568,11 @@ func (sc *serverConn) handleStreams() {
 	// A GOAWAY that carries no reference has nothing to wait for and nothing to
 	// close on either: those paths break the loop where they send it.
 	canCloseAfterGoAway := func() bool {
-		ref := atomic.LoadUint32(&sc.closeRef)
-		if ref == 0 {
+		if atomic.LoadUint32(&sc.closeRefSet) == 0 {
 			return false
 		}
+
+		ref := atomic.LoadUint32(&sc.closeRef)
 
 		for _, strm := range strms {
 			if strm.origType == FrameHeaders && strm.ID() <= ref {
@@ -586,6 +590,16 @@ func (sc *serverConn) handleStreams() {
 loop:
 	for {
 		releaseHandled()
+
+		// A GOAWAY sent from one of the many places below that go on to the
+		// next frame (a frame on a closed stream, RST_STREAM on an idle one,
+		// a refused stream, ...) ends the connection as soon as what it
+		// promised has finished, which may be at once. Checked here so that no
+		// such path has to remember to: they used to leave the connection open
+		// for as long as the peer cared to keep it.
+		if isClosing() && canCloseAfterGoAway() {
+			break loop
+		}
 
 		select {
 		case <-sc.closer:
@@ -1059,6 +1073,7 @@ func (sc *serverConn) writeGoAway(strm uint32, code ErrorCode, message string) {
 
 	if strm != 0 {
 		atomic.StoreUint32(&sc.closeRef, sc.lastID)
+		atomic.StoreUint32(&sc.closeRefSet, 1)
 	}
 
 	atomic.StoreInt32((*int32)(&sc.state), int32(connStateClosed))
